@@ -210,7 +210,7 @@ def make_variant(scn):
     return s2, shift, compare
 
 
-def trajectories(d, scn, names, columns=None):
+def trajectories(d, scn, names, columns=None, idmap=None):
     """tag -> list of (time, {var: value}) from the output files (sparse or dense).
 
     columns (dense layout): filled with tag -> set of columns of the particle axis the tag was found in."""
@@ -221,6 +221,9 @@ def trajectories(d, scn, names, columns=None):
             f = e2e.read_sparse(d / name)
             for t, rec in zip(f["times"], f["records"]):
                 for k in range(len(rec["pid"])):
+                    if idmap is not None:
+                        idmap.setdefault(("tag", int(rec["tag"][k])), set()).add(int(rec["pid"][k]))
+                        idmap.setdefault(("pid", int(rec["pid"][k])), set()).add(int(rec["tag"][k]))
                     traj.setdefault(int(rec["tag"][k]), []).append((t, {v: rec[v][k] for v in VARS if v in rec}))
         else:
             f = e2e.read_dense(d / name)
@@ -266,8 +269,16 @@ def oracle(scn) -> core.CaseResult:
             return res
         n1, n2 = e2e.list_outputs(d1), e2e.list_outputs(d2)
         col1, col2 = {}, {}
-        t1 = trajectories(d1, scn, n1, col1)
-        t2 = trajectories(d2, s2, n2, col2)
+        id1, id2 = {}, {}
+        t1 = trajectories(d1, scn, n1, col1, id1)
+        t2 = trajectories(d2, s2, n2, col2, id2)
+    # "up to renumbering": within a run the identifiers and the release rows (unique tags, mult = 1) correspond
+    # one to one - no identifier carries two particles, no particle changes its identifier
+    for which, ids in (("base", id1), ("variant", id2)):
+        amb = {f"{k[0]} {k[1]}": sorted(vs) for k, vs in ids.items() if len(vs) > 1}
+        if not res.check(not amb, "identifier_not_one_to_one",
+                         f"{which} run ({v['kind']}): identifiers and release rows do not correspond one to one: {amb}"):
+            return res
     for which, cols in (("base", col1), ("variant", col2)):
         moved = {tg: sorted(c) for tg, c in cols.items() if len(c) > 1}
         if not res.check(not moved, "dense_column_changes",
